@@ -319,11 +319,13 @@ PROPS["C17"] = _tx("C17", ["C17_limit_after_reset", "C17_limit_after_restart", "
     " The exact emission schedule 'one retransmission per earlier expiration' follows from the timer theorems plus the "
     "model's handle_timeout (flag set once per expiry) and is exercised by the lock-step scripts; it is not stated as a "
     "separate closed-loop theorem. Counter::update's while loop is modelled by its closed form (timeout > 0).")
-PROPS["C19"] = _tx("C19", ["C19_receiver_silent", "C19_sender_silent", "C19_paused_timers_do_not_count"], ["recv", "send"],
+PROPS["C19"] = _tx("C19", ["C19_receiver_silent", "C19_sender_silent", "C19_paused_timers_do_not_count", "C19_sender_resume_fresh"], ["recv", "send"],
     "Proof for both machines: in a suspended state the send arm and the timeout arm of the loop are disabled for any "
     "suspension length, and no operation whatsoever (received PDUs included) emits a PDU or declares a timer-limit "
-    "fault; paused timers do not count suspended time. Lock-step correspondence plus an oracle on the real code "
-    "(no PDU / no timer fault while suspended, has_pdu_to_send false, until_timeout MAX).",
+    "fault; paused timers do not count suspended time, and a resumed send transaction starts its timers afresh "
+    "(zero expirations, next deadline a full period away). Lock-step correspondence plus an oracle on the real code "
+    "(no PDU / no timer fault while suspended, has_pdu_to_send false, until_timeout MAX; after a resume no limit fault "
+    "within less than a period and no deadline shorter than a period).",
     " 'After resume the transfer continues and completes exactly as an unsuspended one would' is inherited from C02 "
     "and not claimed as a theorem (partial).")
 PROPS["C20"] = _tx("C20", ["C20_receiver_progress_invariant", "C20_receiver_progress_initial",
